@@ -548,7 +548,9 @@ class FuncAnalysis:
                 return v
             return self.global_name(node.id)
         if isinstance(node, ast.BinOp):
-            return self.binop(node.op, self.ev(node.left, env), self.ev(node.right, env), node)
+            lv, rv = self.ev(node.left, env), self.ev(node.right, env)
+            self.angle_wrap(node, lv)
+            return self.binop(node.op, lv, rv, node)
         if isinstance(node, ast.UnaryOp):
             v = self.ev(node.operand, env)
             if isinstance(node.op, ast.USub):
@@ -626,6 +628,26 @@ class FuncAnalysis:
         if isinstance(node, ast.Starred):
             return self.ev(node.value, env)
         return TOP
+
+    def angle_wrap(self, node, lv):
+        """R-ANGLE-WRAP: `E - 360*round(E/360)` (reduction to (-180, 180]) on an Angle-typed E is
+        the identity, because Angle arithmetic already wraps modulo 360"""
+        if not isinstance(node.op, ast.Sub) or not is_angle(lv):
+            return
+        r = node.right
+        if not (isinstance(r, ast.BinOp) and isinstance(r.op, ast.Mult)):
+            return
+        parts = [r.left, r.right]
+        consts = [p for p in parts if isinstance(p, ast.Constant) and p.value in (360, 360.0)]
+        calls = [p for p in parts if isinstance(p, ast.Call) and isinstance(p.func, ast.Name) and p.func.id == "round"]
+        if len(consts) == 1 and len(calls) == 1 and calls[0].args:
+            a = calls[0].args[0]
+            if isinstance(a, ast.BinOp) and isinstance(a.op, ast.Div) and norm_text(a.left) == norm_text(node.left) \
+                    and isinstance(a.right, ast.Constant) and a.right.value in (360, 360.0):
+                self.event("anglewrap", node,
+                           "`%s` is applied to an Angle object: Angle arithmetic already wraps modulo 360 (sign kept), so the value is not "
+                           "brought into (-180, 180] and differences close to +-360 degrees survive" % norm_text(node)[:70],
+                           "anglewrap:" + norm_text(node.left)[:40])
 
     def global_name(self, name):
         m = self.m
